@@ -29,7 +29,7 @@ pub fn plan() -> Plan {
         profiles,
         directed: vec![],
         quick_histories: 500,
-        thorough_histories: 80000,
+        thorough_histories: 320_000,
         s5: None,
         enumerate_session_end: None,
         enumerate_symbols: None,
